@@ -318,7 +318,7 @@ class Driver:
                 sub = RecSubscriber(world, iid, DIR_RESPONSE, who + '-sub',
                                     policy=tuple(spec.get('policy', ('refill', MAX_N, 0))),
                                     cancel_after=spec.get('cancel_after'), initial_granted=n0,
-                                    raise_in=spec.get('sub_raise_in'))
+                                    raise_in=spec.get('sub_raise_in'), request_on_subscribe=spec.get('ros'))
                 st['subscriber'] = sub
                 if model == 'stream':
                     pub = ep.request_stream(req)
